@@ -515,11 +515,17 @@ def _run_transfer(c, sim):
             if not fitted or not copy_estimator:
                 continue  # a reference to the user's estimator is not a snapshot
             how = ch.choice("w", ["pickle", "deepcopy"], "persist-how")
+            sim.env()
+            okb, out_before = U.sut(c, "transform(before persisting)", tt.transform, probe)
             try:
                 tt = pickle.loads(pickle.dumps(tt)) if how == "pickle" else __import__("copy").deepcopy(tt)
             except Exception as e:  # noqa: BLE001
                 sim.viol("persist-raised", ("transfer", how, type(e).__name__), "%s of a fitted TransferTransformer raised %s" % (how, U.short_exc(e)))
                 return
+            sim.env()
+            oka, out_after = U.sut(c, "transform(restored)", tt.transform, probe)
+            if okb and (not oka or not U.arrays_equal(numpy.asarray(out_after), numpy.asarray(out_before), 1e-12, 1e-12)):
+                sim.viol("persist", ("transfer", how, "outputs"), "the %s copy of a fitted transfer does not return what the object it was copied from returns (%s)" % (how, "raised " + U.short_exc(out_after) if not oka else "values differ"))
             c.probe("transfer_persisted_" + how)
             # the restored transfer holds its own copy of the estimator given
             # as parameter: that copy is "the original" from now on
